@@ -299,10 +299,142 @@ def _sites_with_roles(body, fb, roles):
     return out
 
 
+def rule_nopanic_callees(ctx, R):
+    """everything the debugger calls inside the crate (listing, interpreter step, state display, readers) under the
+    whole-binary panic audit of C13, restricted to what is reachable from debug::run"""
+    from . import p_c13
+    fb = ctx.fb_all
+    closures = {c.name for c in fb.closures_of(fb.bodies[DEBUG])} if DEBUG in fb.bodies else set()
+    n = p_c13.rule_panic(ctx, R, roots=[DEBUG], skip={DEBUG} | closures)
+    R.floor("callee_sites", n or 0, 40, "panic-capable sites in functions reachable from debug::run")
+
+
+def _feeding_calls(b, fb, vars_, op, want):
+    """blocks of the calls named `want` whose results flow into operand `op` (backward slice through assignments
+    and call arguments)"""
+    out, seen, work = set(), set(), []
+
+    def push_op(o):
+        if o.get("k") in ("copy", "move"):
+            work.append(o["p"]["l"])
+
+    push_op(op)
+    while work:
+        l = work.pop()
+        if l in seen:
+            continue
+        seen.add(l)
+        for d in vars_.defs.get(l, []):
+            if d[0] == "call":
+                t = d[3]
+                if callee_name(t["f"], fb) in want:
+                    out.add(d[1])
+                    continue
+                for a in t["args"]:
+                    push_op(a)
+            else:
+                r = d[3]["r"]
+                for k in ("x", "a", "b"):
+                    if isinstance(r.get(k), dict):
+                        push_op(r[k])
+                if isinstance(r.get("p"), dict):
+                    work.append(r["p"]["l"])
+                for f in r.get("fields", []) or []:
+                    if isinstance(f, dict):
+                        push_op(f)
+    return out
+
+
+def rule_fresh(ctx, R):
+    """A value read from the newest history entry is used before the history changes again: between the read
+    (`last()`) and the step / listing / breakpoint test that uses it there is no push or pop of the history that is
+    not followed by a new read. (Origin expressions alone cannot see this: `last().1` read before a `previous`
+    looks the same as one read after it.)"""
+    fb = ctx.fb
+    M = DebugModel(fb)
+    if not R.anchor(M.ok, "debug_model", "debug::run anchors"):
+        return
+    b, roles, cfg, vars_ = M.b, M.roles, M.cfg, M.vars
+    R.analyse(b.name)
+    LASTS = {"core::slice::<impl [T]>::last", "[T]::last"}
+    muts = [bi for bi, t in b.calls() if callee_name(t["f"], fb) in ("std::vec::Vec::push", "std::vec::Vec::pop", "std::vec::Vec::clear", "std::vec::Vec::truncate", "std::vec::Vec::remove", "std::vec::Vec::insert") and t["args"] and vars_.root_key(t["args"][0]) == ("L", M.hist)]
+    R.floor("history_mutations", len(muts), 4, "push/pop sites of the history")
+    sinks = {EXEC_ONE: "step", "hyeong::app::check::print_un_opt_codes": "listing", "std::collections::HashSet::contains": "breakpoint test", "hyeong::core::state::State::get_all_stack_index": "state display", "hyeong::core::state::State::get_stack": "state display"}
+    n = 0
+    for ub, t in b.calls():
+        nm = callee_name(t["f"], fb)
+        if nm not in sinks:
+            continue
+        for ai, a in enumerate(t["args"]):
+            for lb in sorted(_feeding_calls(b, fb, vars_, a, LASTS)):
+                n += 1
+                stale = [m for m in muts if m != ub and reaches_without(cfg, cfg.succ[lb], m, cut_blocks=[lb]) and reaches_without(cfg, cfg.succ[m], ub, cut_blocks=[lb])]
+                R.check(not stale, "fresh:%s:%d:arg%d" % (sinks[nm], sum(1 for x, _ in b.calls() if x < ub and callee_name(_["f"], fb) == nm), ai),
+                        "the %s uses a view of the newest history entry that is re-read after every push/pop of the history" % sinks[nm], t["span"]["at"],
+                        [b.blocks[m]["term"]["span"]["at"] for m in stale])
+    R.floor("history_views", n, 8, "uses of last() by steps, listings and the breakpoint test")
+
+
+def rule_bp_exact(ctx, R):
+    """While running, membership of the newest position in the breakpoint set alone decides between stopping and
+    stepping; `run` itself performs one step first (so that it leaves the breakpoint it stands on)."""
+    fb = ctx.fb
+    M = DebugModel(fb)
+    if not R.anchor(M.ok, "debug_model", "debug::run anchors"):
+        return
+    b, roles, cfg, vars_ = M.b, M.roles, M.cfg, M.vars
+    R.analyse(b.name)
+    ev = Events(b, fb, roles=roles)
+    steps = [bi for bi, t in b.calls() if callee_name(t["f"], fb) == EXEC_ONE]
+    reads = [bi for bi, t in b.calls() if callee_name(t["f"], fb) == "hyeong::util::io::read_line_from"]
+    # outer loop head: the loop containing every step
+    heads = {}
+    for be in cfg.back_edges():
+        heads.setdefault(be[1], set()).update(cfg.natural_loop(be))
+    outer = [h for h, blk in heads.items() if all(s_ in blk for s_ in steps)]
+    if not R.anchor(bool(outer) and bool(steps), "outer_loop", "the debugger's main loop"):
+        return
+    head = max(outer, key=lambda h: len(heads[h]))
+    yes, no = [], []
+    for gb, blk in enumerate(b.blocks):
+        tt = blk["term"]
+        if tt["k"] == "switch":
+            for s_ in cfg.succ[gb]:
+                lab = ev.generic_edge(gb, tt, s_) or ""
+                if lab.startswith("BR[HashSet::contains(BPS,UNWRAP([T]::last(HIST)).1)]="):
+                    (yes if lab.endswith("=1") else no).append((gb, s_))
+    if not R.anchor(len(yes) == 1 and len(no) == 1, "bp_test", "the branch on break_points.contains(newest position)"):
+        return
+    R.check(not any(reaches_without(cfg, [yes[0][1]], s_, cut_blocks=[head] + reads) for s_ in steps), "bp:stop_is_unconditional",
+            "when the newest position carries a breakpoint the run stops: no step is executed before control returns to the prompt", b.blocks[yes[0][0]]["term"]["span"]["at"])
+    R.check(not reaches_without(cfg, [no[0][1]], head, cut_blocks=steps), "bp:step_otherwise",
+            "when it carries none, a step is executed before the next test", b.blocks[no[0][0]]["term"]["span"]["at"])
+    # the running flag: the named bool local tested on the path to the breakpoint test
+    flags = [l for l, d in enumerate(b.locals) if d["ty"] == "bool" and l in b.local_names()]
+    sets = []
+    for l in flags:
+        for d in vars_.defs.get(l, []):
+            if d[0] == "assign" and d[3]["r"]["k"] == "use" and d[3]["r"]["x"].get("k") == "const" and str(d[3]["r"]["x"].get("int")) == "1" and d[1] in heads[head]:
+                sets.append((l, d[1], d[3]))
+    if R.anchor(len(sets) >= 1, "run_flag", "assignment `running = true` of the run command"):
+        for l, db, st in sets:
+            R.check(not reaches_without(cfg, [x for r_ in reads for x in cfg.succ[r_]], db, cut_blocks=steps), "bp:run_steps_first",
+                    "`run` executes one command before continuing (it must get off the breakpoint it stands on)", st["span"]["at"])
+
+
+def rule_eofmark(ctx, R):
+    from . import p_c12
+    return p_c12.rule_eofmark(ctx, R, DEBUG)
+
+
 RULES = [
     ("C11.SNAPSHOT", "steps run on a clone of the newest snapshot; history only via push/pop/last/len; previous pops once under len > 1", rule_snapshot),
     ("C11.BP", "breakpoints entered by the user are range-checked before insertion; run consults the set before every step", rule_bp),
     ("C11.ONCE", "captured output is delivered exactly once: writer append/flush shape, flush points of the debugger", rule_once),
     ("C11.EXITFLUSH", "program-requested exits flush both writers first", p_c01.rule_pop),
     ("C11.NOPANIC", "panic-capable sites of the debugger are discharged or audited", rule_nopanic),
+    ("C11.NOPANIC2", "panic-capable sites of every crate function the debugger can reach (listing, step, display) are discharged or audited", rule_nopanic_callees),
+    ("C11.FRESH", "views of the newest history entry are re-read after every push/pop before they are used", rule_fresh),
+    ("C11.BPX", "breakpoint membership alone decides stop/step while running; run steps once first", rule_bp_exact),
+    ("C11.EOFMARK", "an entered empty line is not taken for end of input (reader keeps the terminator)", rule_eofmark),
 ]
